@@ -6,8 +6,10 @@ CONF = dict(
     rule=('histories of 6..260 Pll.Do updates on a fresh real Pll behind a scripted fake timebase.SystemClock: clock readings with gaps chosen around the 2 s / 6 s / 300 s '
  'thresholds (exactly at, +-1 ns), exact whole seconds, 0, sub-second, minutes, up to and beyond 2^32 s and the int64 range; offsets around +-1 ms, slew-saturating, '
  'MinInt64/MaxInt64; weights around 3 / 50 / 150, NaN, infinities, arbitrary bit patterns; epochs bumped after the controller\'s own step and externally at any '
- 'point (incl. wrap values); a minority of histories with readings that go backwards (panic paths). Non-trivial: at least 4 updates and at least one Step or '
- 'Adjust call observed; distinct = distinct (kind, input)'),
+ 'point (incl. wrap values); a minority of histories with readings that go backwards (panic paths). Kind pll.large: large-but-legal inputs - initial and '
+ 'tracking offsets of hours to a year, gaps of 1-3 ns and of 1..400 days (+-1 ns, half seconds), offsets that put the slew at / within 3 ns of the 500 ppm clamp '
+ 'for the gain in force. Kind pll.longgap: the 292-year gap of the known finding, judged with every duration > 0. Non-trivial: at least 4 updates and at least '
+ 'one Step or Adjust call observed; distinct = distinct (kind, input)'),
     assumptions=['clock readings non-decreasing (the property\'s quantifier); histories with a backward reading are compared with the model but the oracle says nothing after the '
  'backward reading',
  'math.Pow(0.999, dt) is an oracle: 0 <= value <= 1 assumed in the theorems; on every run the harness supplies Go\'s value for its own dt and the runner checks that '
@@ -26,7 +28,9 @@ CONF = dict(
  '|integrator| <= 2^80 by monotonicity of rounding and RN(2^80+2^26)=2^80; relative-error bound for the clamp); differential execution of the extracted model '
  'against the real Pll, bit-exact on every Step/Adjust argument'),
     level_text=('Theorems quantify over all histories (any length, any int64 offsets, any float64 weights incl. NaN, any epochs, any non-decreasing readings): the property '
- 'oracle accepts the model\'s trace (C19_oracle_holds); Step only while awaiting the initial step under the stated conditions and by the measured offset; never a '
+ 'oracle, which decides the whole call sequence update by update (no call on the update that starts an epoch and while the initial step is awaited; exactly one '
+ 'Step by the offset, or no call if |offset| <= 1 ms, at the first update more than 2 s into the epoch with weight > 3; then never a Step, at most one sane Adjust '
+ 'per update, and once tracking an Adjust at every later reading), accepts the model\'s trace (C19_oracle_holds); Step only while awaiting the initial step under the stated conditions and by the measured offset; never a '
  'Step once past that mode; Adjust only in tracking mode with finite frequency, duration >= 1 s, at most the elapsed whole seconds, |offset| <= 500 ppm of the '
  'duration; epoch change restarts; no panic. The model is tied to the real code on every run by bit-exact comparison of all clock calls over thousands of '
  'boundary-dense histories, and the same oracle is evaluated on the implementation\'s observations'),
@@ -36,5 +40,5 @@ CONF = dict(
  'duration or non-finite frequency, and restarts on an epoch change'),
     timeout_quick=600,
     timeout_thorough=3000,
-    min_cases={'pll.history': 1502, 'pll.longgap': 1},
+    min_cases={'pll.history': 1502, 'pll.large': 300, 'pll.longgap': 1},
 )
